@@ -127,8 +127,9 @@ func c20text(g *zsim.Stream) string {
 type c20op struct {
 	kind   int
 	text   string
-	form   bool // form encoding (else JSON)
-	query  bool // level in the URL query instead of the body
+	text2  string // first value when the body carries the level key twice
+	form   bool   // form encoding (else JSON)
+	query  bool   // level in the URL query instead of the body
 	method string
 	ctype  string
 	chunk  int
@@ -217,6 +218,7 @@ func runC20(c *Ctx) {
 		op := &c20op{task: g.Draw(nTasks)}
 		op.kind = g.Weighted(2, 6, 1, 2, 1, 1, 1, 2, 1, 2, 1)
 		op.text = c20text(g)
+		op.text2 = c20text(g)
 		op.form = g.Chance(2)
 		op.query = g.Chance(3)
 		op.method = pick(g, "POST", "DELETE", "PATCH", "HEAD", "OPTIONS", "put", "")
@@ -267,6 +269,7 @@ func runC20(c *Ctx) {
 		switch op.kind {
 		case c20Get, c20Put, c20OtherMethod:
 			method := "GET"
+			dup := false
 			var body string
 			target := "/log/level"
 			ctype := ""
@@ -286,6 +289,14 @@ func runC20(c *Ctx) {
 					}
 					js, _ := json.Marshal(map[string]string{"level": op.text})
 					body = string(js)
+					if op.chunk%4 == 0 && !op.form && seq {
+						// the level key twice: which value wins is the decoder's
+						// business, but a rejected request must still change nothing
+						js1, _ := json.Marshal(op.text2)
+						js2, _ := json.Marshal(op.text)
+						body = fmt.Sprintf(`{"level":%s,"level":%s}`, js1, js2)
+						dup = true
+					}
 					switch op.text {
 					case "null":
 						body = `{"level":null}`
@@ -363,6 +374,32 @@ func runC20(c *Ctx) {
 						return false
 					}
 					reg = named
+				} else if op.kind == c20Put && dup {
+					// duplicate keys: the level in force must be the one the
+					// response names, and one of the two that were named
+					k1, l1 := c20classify(op.text2)
+					k2, l2 := c20classify(op.text)
+					if op.text == "" {
+						k2, l2 = 1, zapcore.InfoLevel
+					}
+					if op.text2 == "" {
+						k1, l1 = 1, zapcore.InfoLevel
+					}
+					if !((k1 != 0 && named == l1) || (k2 != 0 && named == l2)) {
+						c.Fail("C20: a PUT set a level other than the one it named", "PUT %s answered %q", body, *resp.Level)
+						return false
+					}
+					accepted++
+					if seq {
+						if got := lvl.Level(); got != named {
+							c.Fail("C20: the response of a PUT does not name the level in force", "PUT %s answered %q, level is %s", body, *resp.Level, got)
+							return false
+						}
+						reg = named
+					} else {
+						record(op.task, regIn{write: true, v: int(named)}, regOut{}, inv, ret)
+						record(op.task, regIn{}, regOut{v: int(named)}, inv, ret)
+					}
 				} else if op.kind == c20Put {
 					kind, want := c20classify(op.text)
 					if !op.form && (op.text == "null" || op.text == "{}" || op.text == "1" || op.text == "true") {
@@ -407,7 +444,7 @@ func runC20(c *Ctx) {
 					c.Fail("C20: GET was answered with an error status", "%d %s", status, rec.Body.String())
 					return false
 				}
-				if op.kind == c20Put && !mayReject {
+				if op.kind == c20Put && !mayReject && !dup {
 					kind, _ := c20classify(op.text)
 					jsonOdd := !op.form && (op.text == "null" || op.text == "{}" || op.text == "1" || op.text == "true")
 					if kind == 1 && !jsonOdd {
